@@ -1,9 +1,10 @@
 CONSTANTS
-  Cursors <- CursorsMC
-  Ids <- IdsMC
-  Vals <- ValsMC
+  Cursors <- OneCursor
+  Ids <- IdsSmall
+  Vals <- ValsSmall
   Offsets <- OffsetsMC
-  MaxRows = 4
+  MaxRows = 3
+  InitTables <- InitSmall
 INIT Init
 NEXT Next
 VIEW ViewNoOut
